@@ -190,6 +190,7 @@ def case_dedup(seed, out, spec, wd):
 
 
 CAPTURE_HOST = '''"""c07 capture host"""
+CATALOG = [{"n": i, "tags": [i, "t%d" % i]} for i in range(12)]
 
 
 def churn(a, box, keep):
@@ -206,6 +207,7 @@ def case_capture(seed, out, spec, wd):
     """Deferred (method_capture) snapshots: the table stays closed and one id stays one object after the capture."""
     r = Rng('c07k', seed)
     ret = r.pick(['fresh', 'again', '[fresh, again]', '{"args": [a, keep], "fresh": fresh}', 'keep', '(a, keep)',
+                  'CATALOG[0]', 'CATALOG[1]["tags"]', 'CATALOG[0]',
                   '[keep, keep]'])
     path = os.path.join(wd, 'c07cap_%s.py' % str(seed).replace(':', '_'))
     with open(path, 'w') as f:
@@ -214,10 +216,13 @@ def case_capture(seed, out, spec, wd):
     mod = hostframe.load(path)
     from vf.rig import Rig
     rig = Rig(custom={}, host_dir=wd)
-    wl = r.sample(['a', 'keep', '[a]', 'len(box)'], r.randrange(0, 3))
-    rig.install([direct_trigger('cap', base, None, 'Snapshot', {'stage': 'method_capture', 'watches': wl,
-                                                                 'frame_type': r.pick(['single_frame', 'all_frame'])},
-                                function='churn')])
+    wl = r.sample(['a', 'keep', '[a]', 'len(box)', 'keep["tags"]', '[keep, box]', 'dict(k=keep)', 'CATALOG', 'CATALOG',
+                   'CATALOG[:6]'], r.randrange(0, 4))
+    cfg = {'stage': 'method_capture', 'watches': wl, 'frame_type': r.pick(['single_frame', 'all_frame'])}
+    budget = r.pick([None, None, 3, 4, 6, 9, 14, 18, 22, 26, 30, 36])
+    if budget is not None:
+        cfg['MAX_VARIABLES'] = budget      # the budget may run out in the frame, inside a watch, or in the capture
+    rig.install([direct_trigger('cap', base, None, 'Snapshot', cfg, function='churn')])
     probs = snapcheck.Problems()
     st = {'n': 0}
     a = r.randrange(1000, 9999)
@@ -231,6 +236,9 @@ def case_capture(seed, out, spec, wd):
                 snap = rec.snapshot
                 snapcheck.check_closed(snap, probs)
                 caps = [w for w in snap.watches if w.source == 'CAPTURE']
+                if budget is not None and (len(caps) != 1 or caps[0].result is None or
+                                           getattr(caps[0].result, 'vid', None) is None):
+                    continue   # the budget ran out: closure (checked above) is all that can be asked
                 if len(caps) != 1 or caps[0].result is None:
                     probs.add('capture:missing', 'deferred snapshot carries %d capture results' % len(caps))
                     continue
@@ -248,7 +256,7 @@ def case_capture(seed, out, spec, wd):
     res, exc = rig.run(mod.churn, a, box, keep)
     rig.cleanup()
     replay = replay_spec(spec, seed)
-    witness = {'returns': ret, 'watches': wl}
+    witness = {'returns': ret, 'watches': wl, 'budget': budget}
     if exc is not None:
         out.inconc('C07 capture host raised %r' % (exc,))
         return
